@@ -20,15 +20,16 @@ LEVEL = "exploration"
 RULE = (
     "layout sub-check: every gap layout (string over {residue, gap}) up to the tier's length bound is enumerated "
     "and, per layout, every in-range alignment interval (start/stop in 0..L and their negative/None spellings), every "
-    "column and every residue index is compared with the string model (evaluations = number of individual "
+    "column (as integer index i and as i-L) and every residue index is compared with the string model (evaluations = number of individual "
     "comparisons); the accessors and index conversions are compared on the map of every construction route, and each "
     "route's map re-enters merge_maps; longer layouts, pairs of layouts for the binary operations, feature maps and "
     "histories are generated with Hypothesis. featuremap sub-check: spans may be reversed (a reversed span denotes its "
     "parent positions downwards) or lost; the map is indexed by a slice, a list of slices, a tuple of spans, an "
-    "integer (incl. negative) and an inner FeatureMap made of forward, reversed and lost spans, and the result is "
-    "compared with the composition of the two index lists; histories of up to 3 operations feed every result into the "
+    "integer (incl. negative) and an inner FeatureMap made of forward, reversed and lost spans (operation inner_out: "
+    "inner spans that overhang either end of the indexed map or lie wholly outside it, whose outside positions must "
+    "come back lost), and the result is compared with the composition of the two index lists; histories of up to 3 operations feed every result into the "
     "next operation and compare after each. history sub-check: 2-5 operations starting from an IndelMap (slice, "
-    "integer index, joined segments, concatenation on either side, scaling, reversal, merge, minus, JSON / from_spans "
+    "integer index in either spelling, joined segments, concatenation on either side, scaling, reversal, merge, minus, JSON / from_spans "
     "round trips), optionally converted by to_feature_map / make_seq_feature_map and continued with feature-map "
     "operations (inverse, slice, composition ...); after every step the result is rendered and answers every accessor "
     "like the map of the transformed string. Non-trivial = a (layout, interval) pair whose start or stop lies strictly "
@@ -42,8 +43,8 @@ ASSUMPTIONS = [
     "FeatureMap.inverse is only required to work on non-overlapping maps (it documents ValueError for overlaps)",
     "IndelMap.get_coordinates on a map of an empty sequence may answer [] or [(0, 0)]",
     "FeatureMap indexing normalises slices like Python (negative and over-long bounds are clamped, _norm_index docstring); integer indices -len..len-1 are asserted (_norm_index documents s[-1] -> s[len(s)-1]), integers outside that range are not generated",
-    "negative / out-of-range INTEGER indices of IndelMap are not asserted: only IndexError for far-out-of-range negatives is pinned by the tests, the rest is undocumented (IndelMap[-1] answers an empty map, see findings)",
-    "an inner FeatureMap used as index has parent_length == len(outer) and non-empty spans inside [0, len(outer)]; spans reaching outside ('Display slices') are not generated",
+    "integer indices of IndelMap are asserted for -len..len-1 with Python meaning (m[i-len] answers like m[i]): __getitem__ is registered for int, converts negative bounds ('convert negative indices') and test_indelmap_invalid_slice_range pins IndexError only for a negative integer beyond -len, alignments pass the integer of aln[i] (cookbook 'Getting a single column') straight to it and the array-backed class follows numpy; integers >= len or < -len are not generated",
+    "an inner FeatureMap used as index has parent_length == len(outer) and non-empty spans; operation inner_out lets forward/reversed spans start at -3..len+2 and end beyond len: Span.remap_with states that the part of a span not lying within the map is added as a lost span ('Display slice, inverse of feature map') and tests/test_core/test_maps.py::test_spans pins (-1,10) -> [-1-, 0:5, 5:10] and (5,11) -> [5:10, -1-], so every outside position is modelled as lost, also when the whole span lies outside (signature tags inner[overhang] / inner[outside]); outer maps of length 0 are skipped for this operation",
     "a tuple/list of Span objects used as index carries forward spans only (as_map drops the reverse flag of a bare Span; Feature.without_lost_spans passes nongap() spans, which are forward)",
     "FeatureMap.nucleic_reversed documents that the reverse attribute of spans is discarded: every reflected span is expected forward, spans in reverse order",
     "FeatureMap.get_coordinates: the docstring allows (end, start) for reversed maps while the code answers (start, end); only the pair of boundaries is compared",
@@ -216,6 +217,11 @@ def spellings(i: int, L: int, is_stop: bool, full: bool):
     return out
 
 
+def int_tag(i: int) -> str:
+    """circumstance tag of an integer index: -1 is the one spelling whose naive slice [i:i+1] ends at 0"""
+    return "" if i >= 0 else ("[minus-one]" if i == -1 else "[negative]")
+
+
 def exec_layout(case) -> Soft:
     from cogent3 import make_seq
     from cogent3.core.location import IndelMap, gap_coords_to_map
@@ -306,15 +312,18 @@ def exec_layout(case) -> Soft:
                 inside = any((gs < a <= ge) or (gs <= a < ge) or (gs < b <= ge) or (gs <= b < ge) for gs, ge in gruns)
                 if inside:
                     s.extra_nontrivial.append(f"{layout}/{a}/{b}")
-    # integer index
+    # integer index, also in its negative spelling (m[i - L] must answer like m[i])
     for i in range(L):
-        ok, sl = s.call("slice/int", lambda: m[i])
-        evals += 1
-        if ok:
-            sub_res = residues[n_left(g, i) : n_left(g, i + 1)]
-            ok, txt = s.call("slice/int/render", render, sl, sub_res)
+        for spell in (i, i - L):
+            sig = "slice/int" + int_tag(spell)
+            ok, sl = s.call(sig, lambda: m[spell])
+            evals += 1
             if ok:
-                s.eq(txt, g[i], "slice/int/render", f"{g!r}[{i}]")
+                sub_res = residues[n_left(g, i) : n_left(g, i + 1)]
+                ok, txt = s.call(sig + "/render", render, sl, sub_res)
+                if ok:
+                    s.eq(txt, g[i], sig + "/render", f"{g!r}[{spell}]")
+                s.eq(len(sl), 1, sig + "/len", f"{g!r}[{spell}]")
 
     # --- unary transformations
     ok, r = s.call("nucleic_reversed", m.nucleic_reversed)
@@ -570,6 +579,19 @@ def reduce_specs(raw, n: int):
     return out
 
 
+def reduce_specs_out(raw, n: int):
+    """raw [kind, u, v] triples -> non-empty spans that may overhang either end of a map of length n or lie wholly
+    outside it (start -3 .. n+2, up to n+3 long; lost spans of length 1..3)"""
+    out = []
+    for kind, u, v in raw:
+        if kind == "l":
+            out.append(["l", 1 + u % 3])
+        else:
+            lo = u % (n + 6) - 3
+            out.append([kind, lo, lo + 1 + v % (n + 3)])
+    return out
+
+
 def fm_positions(fm):
     out = []
     for sp in fm.spans:
@@ -616,7 +638,7 @@ def fm_reflect(idx, blocks, P: int):
     return want
 
 
-GETITEM_OPS = ("slice", "int", "inner", "multi", "spans", "keep")
+GETITEM_OPS = ("slice", "int", "inner", "inner_out", "multi", "spans", "keep")
 SKIP = "not applicable"
 
 
@@ -663,6 +685,24 @@ def fmap_step(s: Soft, fm, idx, P: int, op, sigp: str, after_zeroed: bool = Fals
         want = [None if j is None else idx[j] for j in inner_idx]
         what = f"{fm!r} [inner {specs}]"
         s.cls("inner:" + "".join(sorted({x[0] for x in specs})))
+    elif name == "inner_out":
+        # inner spans reaching outside the indexed map: the outside positions are lost (Span.remap_with comment,
+        # pinned by tests/test_core/test_maps.py::test_spans)
+        if not n:
+            return SKIP
+        specs = reduce_specs_out(op[1], n)
+        inner_idx = spec_positions(specs)
+        call = lambda: fm[FeatureMap(spans=build_spans(specs), parent_length=n)]
+        want = [None if (j is None or not 0 <= j < n) else idx[j] for j in inner_idx]
+        what = f"{fm!r} [inner {specs}]"
+        real_specs = [x for x in specs if x[0] != "l"]
+        if any(x[2] <= 0 or x[1] >= n for x in real_specs):
+            name = "inner[outside]"  # some span covers nothing of the map
+        elif any(x[1] < 0 or x[2] > n for x in real_specs):
+            name = "inner[overhang]"
+        else:
+            name = "inner"
+        s.cls("inner_out:" + name)
     elif name == "multi":
         sls = [slice(a, b) for a, b in op[1]]
         call = lambda: fm[sls]
@@ -772,6 +812,7 @@ def fmap_op_st():
         st.tuples(st.just("slice"), _SLICE_INT, _SLICE_INT).map(list),
         st.tuples(st.just("inner"), _RAW_SPECS).map(list),
         st.tuples(st.just("inner"), _RAW_SPECS).map(list),
+        st.tuples(st.just("inner_out"), st.lists(_RAW_SPEC, min_size=1, max_size=3)).map(list),
         st.tuples(st.just("multi"), st.lists(st.tuples(_SLICE_INT, _SLICE_INT).map(list), min_size=1, max_size=3)).map(list),
         st.tuples(st.just("spans"), st.lists(st.tuples(_SMALL, _SMALL).map(list), min_size=1, max_size=3)).map(list),
         st.tuples(st.just("add"), _RAW_SPECS).map(list),
@@ -975,6 +1016,15 @@ def indel_step(s: Soft, m, lay: str, op, sigp: str, after_json: bool = False):
         call = lambda: m[i]
         want = lay[i]
         what = f"{g!r}[{i}]"
+    elif name == "int_neg":
+        # the same column spelled from the end: -1 .. -L
+        if not L:
+            return None
+        i = -1 - op[1] % L
+        call = lambda: m[i]
+        want = lay[i]
+        what = f"{g!r}[{i}]"
+        name += int_tag(i)
     elif name == "nucleic_reversed":
         call = m.nucleic_reversed
         want = lay[::-1]
@@ -1103,6 +1153,7 @@ def indel_op_st():
         sl,
         sl,
         st.tuples(st.just("int"), _HSMALL).map(list),
+        st.tuples(st.just("int_neg"), st.sampled_from([0, 0, 1, 2, 3, 5, 8, 13, 21])).map(list),
         st.tuples(st.just("joined"), _HLIST).map(list),
         st.tuples(st.just("joined"), _HLIST).map(list),
         st.tuples(st.sampled_from(["add", "radd"]), layout_st(max_size=10)).map(list),
@@ -1239,7 +1290,7 @@ FUZZ = {
 
 META = {
     "technique": "exhaustive enumeration of gap layouts x intervals plus Hypothesis-generated layouts, map pairs, feature maps (forward, reversed and lost spans) and operation histories, against a unique-residue gapped-string model and explicit index lists",
-    "level_text": "Every gap layout up to 7 columns (11 in the thorough tier) is enumerated with all in-range intervals, columns and residue indices and compared with a plain gapped string whose residues are unique, so a misplaced residue or gap is visible; every construction route answers the accessors and re-enters merge_maps; concatenation, scaling, reversal, gap merging/subtraction, segment joining and the FeatureMap algebra (incl. reversed spans, composition m[inner] with forward/reversed/lost inner spans, lists of slices, integer indices, scaling) are compared with the same model on generated inputs, and generated histories of 2-5 operations (IndelMap -> ... -> to_feature_map -> inverse -> slice etc.) are compared after every step. Exploration, not proof: layouts beyond the bound, feature maps and histories are sampled, not enumerated.",
-    "level_note": "Trusts the harness' string / index-list model (about 150 lines, no cogent3 code) and numpy. Out-of-range slice bounds, strides and negative integer indices of IndelMap are outside the domain because IndelMap documents them as unsupported or does not document them.",
+    "level_text": "Every gap layout up to 7 columns (11 in the thorough tier) is enumerated with all in-range intervals, columns and residue indices and compared with a plain gapped string whose residues are unique, so a misplaced residue or gap is visible; every construction route answers the accessors and re-enters merge_maps; concatenation, scaling, reversal, gap merging/subtraction, segment joining and the FeatureMap algebra (incl. reversed spans, composition m[inner] with forward/reversed/lost inner spans incl. spans overhanging or outside the indexed map, lists of slices, integer indices, scaling) are compared with the same model on generated inputs, and generated histories of 2-5 operations (IndelMap -> ... -> to_feature_map -> inverse -> slice etc.) are compared after every step. Exploration, not proof: layouts beyond the bound, feature maps and histories are sampled, not enumerated.",
+    "level_note": "Trusts the harness' string / index-list model (about 150 lines, no cogent3 code) and numpy. Out-of-range slice bounds, strides and integer indices beyond -len..len-1 of IndelMap are outside the domain because IndelMap documents them as unsupported or does not document them.",
     "design_ref": "DESIGN.md section 1, C08",
 }
